@@ -155,11 +155,12 @@ def run_in_big_thread(fn):
 
 
 def execute(prog, entry, intmode="bv", params=None, setup=None, unwind=64, prune=True, globals_init=None,
-            harness_pkgs=(), panic_is_obligation=True, access_log=False):
+            harness_pkgs=(), panic_is_obligation=True, access_log=False, concrete=None):
     """symbolically execute one harness entry point; returns (ctx, ex)"""
     ctx = Ctx(prog, intmode=intmode, unwind=unwind, prune=prune)
     ctx.params = dict(params or {})
     ctx.panic_is_obligation = panic_is_obligation
+    ctx.concrete = concrete
     ex = Executor(ctx)
     ex.intrinsics.update(conc.INTRINSICS)
     H.install(ex, harness_pkgs)
@@ -214,6 +215,11 @@ class Discharger:
             return ob.status
         self.solver.push()
         self.solver.add(b_term(c))
+        hint = getattr(self.ctx, "reach_hint", None)
+        if ob.kind == "reach" and hint:
+            for n, val in hint.items():
+                if n in self.ctx.vars:
+                    self.solver.add(self.ctx.vars[n][0] == val)
         r = self.solver.check()
         if r == z3.sat:
             ob.status = "sat"
@@ -249,11 +255,47 @@ def model_values(ctx, model):
     return out
 
 
-def discharge_all(ctx, extra=(), timeout_ms=60000, label_prefix=""):
+def prove_lemmas(ctx, d, timeout_ms=10000, budget_s=400):
+    """dropped-result lemmas (DESIGN 3.1): prove `guard -> term == 0` in program order; proven ones become facts"""
+    if not hasattr(ctx, "lemma_state"):
+        ctx.lemma_state = [None] * len(ctx.lemma_candidates)
+    proven = 0
+    d.solver.set("timeout", timeout_ms)
+    t_start = time.time()
+    fails = 0
+    for i, (label, guard, term) in enumerate(ctx.lemma_candidates):
+        if ctx.lemma_state[i] is True:
+            proven += 1
+            continue
+        if time.time() - t_start > budget_s or fails >= 8:
+            break
+        d.sync_facts()
+        d.solver.push()
+        d.solver.add(b_term(b_and(guard, term != 0)))
+        r = d.solver.check()
+        d.solver.pop()
+        if r == z3.unsat:
+            ctx.add_fact(z3.Implies(b_term(guard), term == 0))
+            ctx.lemma_state[i] = True
+            proven += 1
+        elif r == z3.sat:
+            ctx.lemma_state[i] = False
+        else:
+            fails += 1
+    d.solver.set("timeout", d.timeout_ms)
+    ctx.lemma_stats = {"candidates": len(ctx.lemma_candidates), "proven": proven}
+    return proven
+
+
+def discharge_all(ctx, extra=(), timeout_ms=60000, label_prefix="", lemmas=False, skip_reach=False, retry_timeout_ms=None):
     """discharge every obligation of a run; returns list of dict records"""
     d = Discharger(ctx, timeout_ms)
+    if lemmas:
+        prove_lemmas(ctx, d)
     recs = []
     for ob in list(ctx.obligations) + list(extra):
+        if ob.kind == "reach" and skip_reach:
+            continue
         st = d.check(ob)
         rec = {"label": label_prefix + ob.label, "kind": ob.kind, "status": st, "time_s": round(ob.time, 4), "pos": ob.pos}
         if ob.kind == "reach":
@@ -264,5 +306,41 @@ def discharge_all(ctx, extra=(), timeout_ms=60000, label_prefix=""):
             rec["verdict"] = "holds" if st == "unsat" else ("violated" if st == "sat" else "inconclusive")
             if st == "sat":
                 rec["model"] = model_values(ctx, ob.model)
+        rec["_ob"] = ob
         recs.append(rec)
+    if lemmas and any(r["verdict"] == "inconclusive" for r in recs) and any(x is None for x in getattr(ctx, "lemma_state", [])):
+        # second pass: unproven (unknown) lemmas with a longer timeout, then retry the inconclusive obligations
+        prove_lemmas(ctx, d, timeout_ms=90000)
+        if retry_timeout_ms:
+            d.timeout_ms = retry_timeout_ms
+            d.solver.set("timeout", retry_timeout_ms)
+        for rec in recs:
+            if rec["verdict"] == "inconclusive" and rec["kind"] != "reach":
+                ob = rec["_ob"]
+                st = d.check(ob)
+                rec["status"] = st
+                rec["time_s"] = round(rec["time_s"] + ob.time, 4)
+                rec["ok"] = (st == "unsat")
+                rec["verdict"] = "holds" if st == "unsat" else ("violated" if st == "sat" else "inconclusive")
+                if st == "sat":
+                    rec["model"] = model_values(ctx, ob.model)
+    for rec in recs:
+        rec.pop("_ob", None)
     return recs
+
+
+def concrete_witness(prog, entry, values, judge=None, **kw):
+    """reachability witness + encoder self-test: run the harness through the executor with concrete inputs
+    (terms fold to numerals).  judge(ctx) -> True if the concrete outputs violate the specification."""
+    ctx, ex = execute(prog, entry, concrete=dict(values), **kw)
+    reached = any(g is True for g in ctx.reached.values())
+    bad = None
+    if judge is not None and reached:
+        bad = judge(ctx)
+    ok = reached and not bad
+    if reached and bad:
+        return {"label": "concrete counterexample: specification fails on a concrete run of the encoding", "kind": "assert", "status": "sat",
+                "time_s": round(ctx.exec_s, 4), "pos": "", "ok": False, "verdict": "violated", "model": dict(values)}, ctx
+    return {"label": "reachability witness: concrete run of the encoding reaches the end and meets the specification (inputs %s)" % (dict(list(values.items())[:4]),),
+            "kind": "reach", "status": "sat" if ok else "unsat", "time_s": round(ctx.exec_s, 4), "pos": "", "ok": ok,
+            "verdict": "reached" if ok else "vacuous", "concrete_notes": None}, ctx
